@@ -17,6 +17,25 @@ import (
 
 type CounterStyle map[string]CounterStyleDescriptors
 
+// extendsCycle reports whether following the "extends" links from name leads back to name.
+func (c CounterStyle) extendsCycle(name string) bool {
+	seen := utils.NewSet()
+	for current := name; ; {
+		counter, has := c[current]
+		if !has || counter.System.Extends == "" {
+			return false
+		}
+		current = counter.System.System
+		if current == name {
+			return true
+		}
+		if seen.Has(current) {
+			return false // a cycle that does not contain name
+		}
+		seen.Add(current)
+	}
+}
+
 // may return nil
 func (c CounterStyle) resolveCounter(counterName string, previousTypes utils.Set) *CounterStyleDescriptors {
 	counter, has := c[counterName]
@@ -38,21 +57,22 @@ func (c CounterStyle) resolveCounter(counterName string, previousTypes utils.Set
 	}
 
 	// Handle extends
+	extending := counterName // the style whose "extends" is being followed
 	for extends != "" {
+		if c.extendsCycle(extending) {
+			// "all of the counter styles participating in the cycle must be treated as
+			// extending the decimal counter style instead"
+			system = "decimal"
+		}
 		if extendedCounter, has := c[system]; has {
 			counter.System = extendedCounter.System
-			previousTypes.Add(system)
+			counter.merge(extendedCounter)
+			extending = system
 
 			extends, system = "", "symbolic"
 			if counter.System != (CounterStyleSystem{}) {
 				extends, system = counter.System.Extends, counter.System.System
 			}
-
-			if extends != "" && previousTypes.Has(system) {
-				extends, system = "extends", "decimal"
-				continue
-			}
-			counter.merge(extendedCounter)
 		} else if _, has := c["decimal"]; has && system != "decimal" {
 			// "If the specified counter style name isn't the name of any defined counter style,
 			// it must be treated as if it was extending the decimal counter style."
